@@ -16,6 +16,42 @@ notes = []
 def unrec(what):
     notes.append('unrecognised: ' + what)
 
+# the register-allocation loop of assign_registers, each_lower_arg, the per-script check after the loop and
+# PersistentState::finish, whitespace- and comment-stripped, as Model/RegAlloc.v ([step], [subst_arg],
+# [assign_registers], [assign_file]) restates them.  Any edit of these shows up as `unrecognised`.
+PINNED_LOOP = 'match&mutstmt.value{&mutLowerStmt::RegAlloc{def_id}=>{has_used_scratch.get_or_insert(stmt.span);letrequired_ty=ctx.defs.var_inherent_ty(def_id).as_known_ty().expect("(bug!)untypedinstacklesslowerer");letreg=remaining_scratch_regs_by_ty[required_ty].pop().ok_or_else(||{script_too_complex(stmt,hooks,required_ty,&explicitly_used_regs,&implicitly_used_regs,&ctx)})?;implicitly_used_regs.insert(reg,(required_ty,stmt.span));assert!(local_regs.insert(def_id,reg).is_none());assert!(!clashing_names_for_regs.contains_key(&reg));ifletSome(debug_info)=&mutdebug_info{debug_info.locals.push(debug_info::Local{name:ctx.defs.var_name(def_id).to_string(),name_span:stmt.span.into(),r#type:ReadType::from_ty(required_ty).expect("string-typedregister?!").into(),bound_to:reg.into(),});}},LowerStmt::RegFree{def_id}=>{letinherent_ty=ctx.defs.var_inherent_ty(*def_id).as_known_ty().expect("(bug!)weallocatedaregsoitmusthaveatype");letreg=local_regs.remove(&def_id).expect("(bug!)RegFreewithoutRegAlloc!");assert!(implicitly_used_regs.remove(&reg).is_some());remaining_scratch_regs_by_ty[inherent_ty].push(reg);},LowerStmt::Instr(instr)=>{ifletSome(how_bad)=hooks.instr_disables_scratch_regs(instr.opcode){matchhow_bad{HowBadIsIt::OhItsJustThisOneFunction=>{has_anti_scratch_ins.get_or_insert(stmt.span);},HowBadIsIt::ItsWaterElf=>{global_scratch_results.has_anti_scratch_ins.get_or_insert(stmt.span);},}}ifletLowerArgs::Known(args)=&mutinstr.args{forarginargs{each_lower_arg(arg,&mut|arg|{ifletLowerArg::Local{def_id,storage_ty}=arg.value{arg.value=LowerArg::Raw(SimpleArg::from_reg(local_regs[&def_id],storage_ty));}})}}},LowerStmt::Label{..}=>{},}'
+PINNED_EACH_LOWER_ARG = 'func(arg);ifletLowerArg::DiffSwitch(cases)=&mutarg.value{forcaseincases{ifletSome(case)=case{each_lower_arg(case,func);}}}'
+PINNED_POST_LOOP = 'ifletSome(anti_span)=has_anti_scratch_ins{ifletSome(used_span)=has_used_scratch{returnErr(ctx.emitter.emit(error!(message("scratchregistersaredisabledinthisscript"),primary(used_span,"thisfancyexpressionrequiresascratchregister"),primary(anti_span,"thisdisablesscratchregisters"),)))}}'
+PINNED_FINISH = 'ifletSome(anti_span)=self.has_anti_scratch_ins{ifletSome(used_span)=self.has_used_scratch{returnErr(ctx.emitter.emit(error!(message("scratchregistersaredisabledinthisentirefile"),primary(used_span,"thisfancyexpressionrequiresascratchregister"),secondary(anti_span,"Patchoulihastaintedthisentirefile"),)))}}Ok(())'
+
+def check_pinned(stackless):
+    def norm(x): return re.sub(r'\s', '', x)
+    m = re.search(r'\bfn assign_registers\b', stackless)
+    if not m:
+        unrec('assign_registers not found'); return
+    i = stackless.find('for stmt in code {', m.end())
+    if i < 0:
+        unrec('assign_registers: allocation loop not found')
+    else:
+        ob = stackless.find('{', i); cb = matching_brace(stackless, ob)
+        if norm(stackless[ob + 1:cb]) != PINNED_LOOP:
+            unrec('assign_registers: the RegAlloc/RegFree/Instr loop differs from the modelled one')
+    j = stackless.find('if let Some(anti_span) = has_anti_scratch_ins', m.end())
+    if j < 0:
+        unrec('assign_registers: per-script scratch-forbidding check not found')
+    else:
+        ob = stackless.find('{', j); cb = matching_brace(stackless, ob)
+        if norm(stackless[j:cb + 1]) != PINNED_POST_LOOP:
+            unrec('assign_registers: the per-script scratch-forbidding check differs from the modelled one')
+    for name, rx, pinned in (('each_lower_arg', r'\bfn each_lower_arg\b[^{]*', PINNED_EACH_LOWER_ARG),
+                             ('PersistentState::finish', r'\bfn finish\(self[^{]*', PINNED_FINISH)):
+        mm = re.search(rx, stackless)
+        if not mm:
+            unrec('%s not found' % name); continue
+        ob = mm.end(); cb = matching_brace(stackless, ob)
+        if norm(stackless[ob + 1:cb]) != pinned:
+            unrec('%s differs from the modelled one' % name)
+
 def z(i):
     return '(%d)' % i if i < 0 else '%d' % i
 
@@ -263,6 +299,8 @@ def main():
     else:
         unrec('get_explicitly_used_regs not found')
     if deep is None: deep = False
+
+    check_pinned(stackless)
 
     # ---- emit
     L = []
